@@ -445,11 +445,13 @@ func lFamily(tier string) *core.Family {
 // never a Go panic; a returned function called under limits gives an ordinary
 // outcome.
 //
-// Flips of bits >= 22 of an element count (number of opcodes / lines /
-// constants / upvalue names) are not executed here: golua allocates the array
-// before charging for it, so those cases allocate up to 2^47 bytes and kill or
-// stall the worker.  That defect is demonstrated with safe sizes by the family
-// R-alloc instead.
+// Mutations after which the loader meets an element count (number of opcodes /
+// lines / constants / upvalue names) between 2^16 and 2^47 are not executed
+// (counted as skipped; C13_BOMBS=1 runs them): golua allocates the array
+// before charging for it, so those cases allocate up to 2^51 bytes and kill
+// (fatal error: out of memory) or stall the worker.  The mutated input is
+// read by this check's own format reader to find that count.  The defect is
+// demonstrated with safe sizes by the family R-alloc instead.
 
 type rCase struct {
 	fn    int
@@ -549,8 +551,10 @@ func rFamily(tier string) *core.Family {
 			c := cases[i]
 			d, mut := mutate(c)
 			f, bit := fieldOf(c)
-			if !c.trunc && f.kind == "count" && bit >= 22 {
-				return core.Outcome{Skipped: true} // see R-alloc
+			_ = bit
+			if bc := firstBadCount(d); bc > 1<<16 && bc < 1<<47 && os.Getenv("C13_BOMBS") == "" {
+				// golua would allocate bc elements before charging: see R-alloc
+				return core.Outcome{Skipped: true}
 			}
 			key := fmt.Sprintf("R-corrupt fn=%s mut=%s field=%s", mFuncs[c.fn].name, mut, f.kind)
 			m := newMachine()
